@@ -2,9 +2,9 @@
 from drivers import ll
 from vcheck import Machinery
 
-TOK = (r"(?P<SPACE>\s+)|(?P<WORD>[a-z][a-z0-9]*)|(?P<COMMA>,)|(?P<BO>\[)|(?P<BC>\])")
-SYN = {'COMMA': ',', 'BO': '[', 'BC': ']'}
-TEXTS = ['w', 'w [ ]', 'w [ a ]', 'w [ a , b ]', 'w [ a b ]', 'w [ a , ]', 'w [ , ]', 'w a', 'w a , b', 'w a b', 'w ,', 'w [ a , , b ]']
+TOK = (r"(?P<SPACE>\s+)|(?P<WORD>[a-z][a-z0-9]*)|(?P<COMMA>,)|(?P<BO>\[)|(?P<BC>\])|(?P<CO>\{)|(?P<CC>\})|(?P<COLON>:)")
+SYN = {'COMMA': ',', 'BO': '[', 'BC': ']', 'CO': '{', 'CC': '}', 'COLON': ':'}
+TEXTS = ['w', 'w { a : b , }', 'w [ a ] { }', 'w [ ]', 'w [ a ]', 'w [ a , b ]', 'w [ a b ]', 'w [ a , ]', 'w [ , ]', 'w a', 'w a , b', 'w a b', 'w ,', 'w [ a , , b ]']
 
 
 def template_case(c, smart):
@@ -13,7 +13,9 @@ def template_case(c, smart):
     o = c['opt']
     if c['dup']:
         return None                  # two equal adjacent productions: the constructor refuses them for another reason
-    prods = {'E': [('WORD', 'LIST')], 'IT': [('WORD',), None] if o['itemnull'] else [('WORD',)]}
+    prods = {'E': [('WORD', 'LIST', 'OMAP') if o.get('second') else ('WORD', 'LIST')], 'IT': [('WORD',), None] if o['itemnull'] else [('WORD',)]}
+    if o.get('second'):
+        prods['OMAP'] = llparser.MapProds('{', 'WORD', ':', 'WORD', ',', '}', optional=True)
     delim = {'none': None, 'term': ',', 'ntnull': 'OC', 'nt': 'CM'}[o['delim']]
     if o['delim'] == 'ntnull':
         prods['OC'] = [(',',), None]
@@ -25,9 +27,9 @@ def template_case(c, smart):
     except AssertionError:
         return None                  # a combination of options the template does not offer
     cls = ll.parser_class()
-    where = 'ListProds(%r, IT, %r, %r, allow_final_delimiter=%s, optional=%s), IT %s, smart=%s' % (
+    where = 'ListProds(%r, IT, %r, %r, allow_final_delimiter=%s, optional=%s), IT %s%s, smart=%s' % (
         '[' if o['br'] else None, delim, ']' if o['br'] else None, o['afd'], o['optional'],
-        'nullable' if o['itemnull'] else 'not nullable', smart)
+        'nullable' if o['itemnull'] else 'not nullable', ', followed by an optional MapProds' if o.get('second') else '', smart)
     try:
         p = cls(TOK, synonyms=SYN, productions=prods, smart_factorization=smart)
         outcome = 'ok'
@@ -35,6 +37,11 @@ def template_case(c, smart):
         outcome = 'GrammarIsRecursive'
     except (llparser.GrammarError, AssertionError):
         return None                  # rejected for another reason (e.g. nullable items without a delimiter): no verdict
+    except Exception as e:
+        if c['leftrec']:
+            return '%s: the productions the template generates are left recursive (symbols %s) but the constructor raised %s: %s instead of GrammarIsRecursive' % (
+                where, c['lrsyms'], type(e).__name__, str(e)[:80])
+        return None
     if c['leftrec'] != (outcome == 'GrammarIsRecursive'):
         return '%s: constructor %s, but the productions the template generates %s left recursive (symbols %s): %s' % (
             where, 'accepted the grammar' if outcome == 'ok' else 'raised GrammarIsRecursive',
@@ -57,7 +64,7 @@ def templates(ctx):
     r = ctx.tlc('llparser/LLListExpand.tla', 'SPECIFICATION Spec\nCHECK_DEADLOCK FALSE\nINVARIANT TerminalDelimiterIsSafe\n',
                 workers=4, timeout=1200)
     cases = [c for c in r.printed if isinstance(c, dict)]
-    if len(cases) != 64:
+    if len(cases) != 128:
         raise Machinery('LLListExpand emitted %d option sets' % len(cases))
     nrec = 0
     for c in cases:
